@@ -35,6 +35,9 @@ def run_units(case, rng, cls):
         L, T, K = [float(2.0 ** int(rng.integers(-20, 21))) for _ in range(3)]
     else:
         L, T, K = [float(10 ** rng.uniform(-6, 6)) for _ in range(3)]
+    if case.get('wide'):
+        # nanometre ... gigametre: absolute length tolerances hidden in the library (1e-8 is numpy's default atol) must not matter
+        L = float(2.0 ** int(rng.integers(-33, 34))) if pow2 else float(10 ** rng.uniform(-10, 10))
     facesB = scaled_faces(cls, faces, L)
     gB = Geom(cls, facesB)
     mA, mB = gen.build_mesh(pf, cls, faces), gen.build_mesh(pf, cls, facesB)
@@ -127,6 +130,10 @@ def run_units(case, rng, cls):
         cov['small_amplitude'] = 1
     if pow2:
         cov['pow2_scales'] = 1
+    if case.get('wide'):
+        cov['wide_length_scale'] = 1
+        if L < 1e-7:
+            cov['length_scale_below_1e-7'] = 1
     return bad, cov, maxerr, meta, faces, spec, (L, T, K), limname if 'tvd' in tset else '', None
 
 
@@ -264,7 +271,7 @@ def plan(tier, seed):
         i = 0
         for tset in TSETS:
             for rep in range(per):
-                cases.append({'cls': cls, 'kind': 'units', 'tset': tset, 'small': rep % 4 == 3, 'seed': [seed, 17, ci, i]})
+                cases.append({'cls': cls, 'kind': 'units', 'tset': tset, 'small': rep % 4 == 3, 'wide': rep % 2 == 1, 'seed': [seed, 17, ci, i]})
                 i += 1
         for rep in range(3 if tier == 'quick' else 60):
             cases.append({'cls': cls, 'kind': 'linearity', 'seed': [seed, 17, ci, i]})
@@ -288,7 +295,7 @@ def floors(agg, tier):
     for t in TSETS:
         if agg['cov'].get('tset:' + t, 0) < 20:
             out.append('tset:%s < 20' % t)
-    for k, need in (('unit_steps', 300), ('unit_direct', 100), ('small_amplitude', 20), ('pow2_scales', 30), ('tvd_homogeneity', 40), ('tvd_homogeneity_below_1e-15', 5)):
+    for k, need in (('unit_steps', 300), ('unit_direct', 100), ('small_amplitude', 20), ('pow2_scales', 30), ('wide_length_scale', 60), ('length_scale_below_1e-7', 8), ('tvd_homogeneity', 40), ('tvd_homogeneity_below_1e-15', 5)):
         if agg['cov'].get(k, 0) < need:
             out.append('%s < %d' % (k, need))
     return out
